@@ -102,6 +102,7 @@ def optimal(
         weights = numbins*[1]
 
     model = mip.Model("partition")
+    model.preprocess = 0  # CBC's preprocessing returns wrong "optimal" solutions (infeasible or sub-optimal) on models with general-integer variables (copies other than 1)
     counts: dict = {
         iitem: [model.add_var(var_type=mip.INTEGER) for ibin in ibins] 
         for iitem in iitems
